@@ -178,6 +178,8 @@ struct World
             gdT((int)r.below((uint64_t)N)) = 1.0;
             break;
         case 4: // the energy partials
+            gdC.setConstant(41.0);
+            gdT.setConstant(-41.0);
             s.getEnergyPartialGradByCoeffs(gdC);
             s.getEnergyPartialGradByTimes(gdT);
             break;
@@ -434,6 +436,11 @@ struct World
                 std::string where;
                 if (o.I(3) & 1)
                 {
+                    // the caller's output struct comes back from earlier use with arbitrary contents
+                    if (reused_out.inner_points.size() > 0) reused_out.inner_points.setConstant(-777.25);
+                    if (reused_out.times.size() > 0) reused_out.times.setConstant(1e30);
+                    reused_out.start.p.setConstant(3.5);
+                    reused_out.end.v.setConstant(-2.5);
                     H.s->propagateGrad(gdC, gdT, reused_out);
                     SIM_CHECK(GO::equal(reused_out, want, where), "propagate_vs_fresh",
                               "propagateGrad (reference overload, reused output) field " << where << " differs from the same call on a fresh spline; N=" << H.m.N());
@@ -472,9 +479,41 @@ struct World
             {
                 int k = pick(o.I(0));
                 if (k < 0) break;
+                if (kind == OP_PARTIALS)
+                {
+                    // reference overloads writing into buffers the caller has used before (same size, arbitrary contents)
+                    std::unique_ptr<Spline> twin = prob::make_spline<Spline, DIM>(h[k].m);
+                    Mat want_c = twin->getEnergyPartialGradByCoeffs();
+                    Eigen::VectorXd want_t = twin->getEnergyPartialGradByTimes();
+                    Mat buf_c = Mat::Constant(want_c.rows(), DIM, (o.I(1) & 1) ? 12345.678 : std::nan(""));
+                    Eigen::VectorXd buf_t = Eigen::VectorXd::Constant(want_t.size(), -9.75);
+                    if (o.I(1) & 2) { buf_c.resize(3, DIM); buf_t.resize(1); } // or of another size
+                    h[k].s->getEnergyPartialGradByCoeffs(buf_c);
+                    h[k].s->getEnergyPartialGradByTimes(buf_t);
+                    SIM_CHECK(bitwise_equal(buf_c, want_c) && bitwise_equal(buf_t, want_t), "partials_depend_on_caller_buffer",
+                              "energy partials written into a previously used buffer differ from those of a fresh spline (N=" << h[k].m.N() << ")");
+                    ctx.count("oracle.poisoned_caller_buffer");
+                }
+                if (kind == OP_ENERGY_GRAD)
+                {
+                    // the energy and its gradients do not involve the start time either
+                    Problem<DIM> q = h[k].m;
+                    q.by_points = false;
+                    static const double shifts[] = {0.0, 1758931200.0, -86400.0, 1e-3, 6.02e12};
+                    q.t0 = shifts[(size_t)(((o.I(1) / 2 % 5) + 5) % 5)];
+                    Spline moved(q.T, q.P, q.t0, q.bc);
+                    std::unique_ptr<Spline> tw = prob::make_spline<Spline, DIM>(h[k].m);
+                    std::string where;
+                    G a = moved.getEnergyGrad(), b = tw->getEnergyGrad();
+                    SIM_CHECK(same_bits(moved.getEnergy(), tw->getEnergy()) && GO::equal(a, b, where), "energy_depends_on_start_time",
+                              "energy or energy gradient field " << where << " changes when only the start time changes (" << h[k].m.t0 << " -> " << q.t0 << ")");
+                    ctx.count("oracle.start_time_invariance");
+                }
                 if (kind == OP_ENERGY_GRAD && (o.I(1) & 1))
                 {
                     std::unique_ptr<Spline> twin = prob::make_spline<Spline, DIM>(h[k].m);
+                    reused_energy.start.v.setConstant(55.5);
+                    if (reused_energy.times.size() > 0) reused_energy.times.setConstant(-1e9);
                     h[k].s->getEnergyGrad(reused_energy);
                     G want = twin->getEnergyGrad();
                     std::string where;
@@ -531,6 +570,57 @@ struct World
             {
                 int s = pick(o.I(0));
                 if (s < 0) break;
+                if ((o.I(1) & 3) == 3)
+                {
+                    // update with durations that are, bit for bit, the differences of the object's own knot times
+                    // (what a caller gets when it reads the grid back and re-submits it), same start time
+                    if (o.I(1) & 8)
+                    {
+                        // look (in plain arithmetic, without the library) for a "human" grid whose knot times do not
+                        // round-trip: re-adding the differences of the accumulated times gives other accumulated times.
+                        // Such a grid is then given to the object before its own grid is re-submitted.
+                        Rng rr((uint64_t)o.I(0) * 7919u + (uint64_t)o.I(1), 0x6a1d);
+                        const int N = h[s].m.N();
+                        for (int tries = 0; tries < 4000; ++tries)
+                        {
+                            double t0 = (double)rr.range(-200, 200) / 100.0;
+                            std::vector<double> d((size_t)N), cum((size_t)N + 1), cum2((size_t)N + 1);
+                            cum[0] = cum2[0] = t0;
+                            for (int i = 0; i < N; ++i) { d[(size_t)i] = (double)rr.range(10, 200) / 100.0; cum[(size_t)i + 1] = cum[(size_t)i] + d[(size_t)i]; }
+                            bool differs = false;
+                            for (int i = 0; i < N; ++i) { cum2[(size_t)i + 1] = cum2[(size_t)i] + (cum[(size_t)i + 1] - cum[(size_t)i]); differs = differs || cum2[(size_t)i + 1] != cum[(size_t)i + 1]; }
+                            if (!differs) continue;
+                            Problem<DIM> g = h[s].m;
+                            g.by_points = false;
+                            g.t0 = t0;
+                            g.T = d;
+                            g.tp = cum;
+                            prob::apply_update<Spline, DIM>(*h[s].s, g);
+                            h[s].m = g;
+                            ctx.count("probe.grid_that_does_not_round_trip");
+                            break;
+                        }
+                    }
+                    Problem<DIM> q = h[s].m;
+                    const std::vector<double> cum = h[s].s->getCumulativeTimes();
+                    q.by_points = (o.I(1) & 4) != 0; // either overload: the grid itself as time points, or its differences as durations
+                    q.t0 = cum[0];
+                    for (int i = 0; i < q.N(); ++i) q.T[(size_t)i] = cum[(size_t)i + 1] - cum[(size_t)i];
+                    q.tp = cum;
+                    bool pos = true;
+                    for (double t : q.T) pos = pos && t > 0;
+                    if (pos)
+                    {
+                        if (q.by_points && (o.I(0) & 4)) h[s].s->update(h[s].s->getCumulativeTimes(), q.P, q.bc); // aliased
+                        else
+                        prob::apply_update<Spline, DIM>(*h[s].s, q);
+                        h[s].m = q;
+                        check_twin(h[s], "after update with the differences of the object's own knot times", true);
+                        ctx.count("probe.update_from_own_grid");
+                        changed = true;
+                    }
+                    break;
+                }
                 if (o.I(1) & 1)
                 {
                     // update with the object's own stored inputs (the arguments alias the members being replaced)
@@ -685,12 +775,13 @@ inline Plan gen_plan(uint64_t seed, uint64_t index, Tier tier, int profile)
             break;
         case OP_PROPAGATE: o.i = {(int64_t)r.below(kHandles), (int64_t)r.below(1u << 30), (int64_t)r.below(6), (int64_t)r.below(4)}; break;
         case OP_SAME_SPAN: o.i = {r.chance(0.75) ? 0 : (int64_t)r.below(kHandles), (int64_t)r.below(6), (int64_t)r.below(1u << 30), (int64_t)r.below(2)}; break;
-        case OP_ENERGY: case OP_PARTIALS: case OP_COEFFS: o.i = {(int64_t)r.below(kHandles)}; break;
-        case OP_ENERGY_GRAD: o.i = {(int64_t)r.below(kHandles), (int64_t)r.below(2)}; break;
+        case OP_ENERGY: case OP_COEFFS: o.i = {(int64_t)r.below(kHandles)}; break;
+        case OP_PARTIALS: o.i = {(int64_t)r.below(kHandles), (int64_t)r.below(4)}; break;
+        case OP_ENERGY_GRAD: o.i = {(int64_t)r.below(kHandles), (int64_t)r.below(10)}; break;
         case OP_EVAL: o.i = {(int64_t)r.below(kHandles), (int64_t)r.below(8), (int64_t)r.below(64), (int64_t)r.below(128)}; o.d = {r.unit()}; break;
         case OP_COPY: case OP_ASSIGN: o.i = {(int64_t)r.below(kHandles), (int64_t)r.below(kHandles)}; break;
         case OP_DESTROY: o.i = {(int64_t)r.below(kHandles)}; break;
-        case OP_SELF_ASSIGN: o.i = {(int64_t)r.below(kHandles), (int64_t)r.below(4)}; break;
+        case OP_SELF_ASSIGN: o.i = {(int64_t)r.below(kHandles), (int64_t)r.below(16)}; break;
         case OP_TRAJ_COPY: o.i = {(int64_t)r.below(kHandles), (int64_t)r.below(4)}; break;
         case OP_ADJOINT: o.i = {(int64_t)r.below(kHandles), (int64_t)r.below(1u << 30), (int64_t)r.below(6)}; break;
         case OP_LINEARITY: o.i = {(int64_t)r.below(kHandles), (int64_t)r.below(1u << 30), (int64_t)r.below(6), (int64_t)r.below(7), (int64_t)r.below(5)}; break;
